@@ -162,15 +162,13 @@ let () =
         let lb = int_of_string lb in
         (match r with
          | None ->
-           (* an sgpd whose (corrupted) grouping type is not alst has no prologue model *)
-           if nm = "sgpd" then Printf.printf "OK %s\n" id
-           else Printf.printf "MISMATCH %s count box %s is not modelled\n" id nm
+           Printf.printf "MISMATCH %s count box %s is not modelled\n" id nm
          | Some (Ok o) ->
            let mcls = if o_ok o then "ok" else "err" in
-           (* ssix / leva / sgpd: only the prologue is modelled, the entry loop may still fail *)
-           let partial = (nm = "ssix" || nm = "leva" || nm = "sgpd") in
-           let cls_ok = (cls = mcls) || (partial && mcls = "ok" && cls = "err") || (nm = "sgpd" && cls <> "panic") in
-           let cnt_ok = (cls <> "ok") || nm = "sgpd" || int_of_string cnt = int_of_n (o_count o) in
+           (* ssix / leva: only the prologue is modelled, the entry loop may still fail *)
+           let partial = (nm = "ssix" || nm = "leva") in
+           let cls_ok = (cls = mcls) || (partial && mcls = "ok" && cls = "err") in
+           let cnt_ok = (cls <> "ok") || int_of_string cnt = int_of_n (o_count o) in
            let al = int_of_n (o_alloc o) in
            let hi = if lb >= 62 then max_int else 1 lsl lb in
            let lo = if lb = 0 then 0 else 1 lsl (lb - 1) in
